@@ -9,7 +9,6 @@
    constructor functions; middleware lists are arbitrary lists. *)
 From Coq Require Import List ZArith Bool String Lia.
 From Shoot Require Import Model.RestRuntime Proofs.RestRuntimeProofs.
-(* (keep this comment line: lib.closure needs a non-identifier after the Require) *)
 Import ListNotations.
 
 (* ---- RestConf holds exactly the supplied options, later options win.
